@@ -364,6 +364,18 @@ class Mon:
                 if not (st == "ERR" and body.startswith("ConnFail:")):
                     self.v("C10", "%s: %s %s (expected ERR ConnFail)" % (what, st, body))
                 return
+            if r[3] == "0":
+                # F37 (fix: commit b2fc5b9): receive-maximum 0 is a protocol error: refused, the limit
+                # and the allocator stay as they were (the monitor keeps self.max, so any id above
+                # it on a later SUBSCRIBE / PUBLISH is a C07 violation); topic_alias_max, which the
+                # code reads first, is taken over
+                if not (st == "ERR" and body == "ConnFail:130"):
+                    self.v("C07", "%s: receive-maximum 0 answered %s %s (expected ERR ConnFail:130)" % (what, st, body))
+                self.expect_events("C10", oev, [], what)
+                if r[4] != "-":
+                    self.alias_max = int(r[4])
+                self.nontrivial.add("v5-receive-max-zero")
+                return
             if not (st == "OK" and body == "-"):
                 self.v("C10", "%s: %s %s" % (what, st, body))
             if r[4] != "-":
@@ -481,7 +493,7 @@ INCOMING_ALPHABET = ["IN PUB 0 0 1 1", "IN PUB 1 {i} 1 1", "IN PUB 2 {i} 1 1", "
 
 INCOMING_ALPHABET_V5 = ["IN PUB 0 0 1 1", "IN PUB 1 {i} 1 1", "IN PUB 2 {i} 1 1", "IN PUBREL {i}", "IN PUBREL {i} 146", "IN PUBACK {i}",
                         "IN PUBACK {i} 128", "IN PUBREC {i}", "IN PUBREC {i} 135", "IN PUBCOMP {i}", "IN PUBCOMP {i} 146", "IN SUBACK {i}",
-                        "IN UNSUBACK {i}", "IN PINGRESP", "IN PINGREQ", "IN CONNACK 1 0 - -", "IN CONNACK 1 0 1 5", "IN CONNACK 0 135 - -",
+                        "IN UNSUBACK {i}", "IN PINGRESP", "IN PINGREQ", "IN CONNACK 1 0 - -", "IN CONNACK 1 0 1 5", "IN CONNACK 0 135 - -", "IN CONNACK 1 0 0 -", "IN CONNACK 1 0 0 9",
                         "IN DISCONNECT 139", "IN DISCONNECT", "IN CONNECT", "IN SUB {i} 1", "IN UNSUB {i} 1",
                         "IN PUB 1 {i} 0 1 7", "IN PUB 1 {i} 3 1 7", "IN PUB 2 {i} 0 1 8"]
 
@@ -624,11 +636,12 @@ def random_history(rng, ver, style, mx, nops):
         elif ver == "5" and rng.chance(1, 2):
             c = rng.below(5)
             if c == 0:
-                rm = rng.choice([1, 2, mx, max(1, mx // 2), 65535])
+                rm = rng.choice([0, 1, 2, mx, max(1, mx // 2), 65535])
                 ops.append("IN CONNACK 1 0 %d %s" % (rm, rng.choice(["-", "3", "10"])))
-                tr.max = min(rm, tr.limit)
-                if tr.last >= tr.max:
-                    tr.last = 0
+                if rm != 0:          # receive-maximum 0 is refused (F37): limit and allocator unchanged
+                    tr.max = min(rm, tr.limit)
+                    if tr.last >= tr.max:
+                        tr.last = 0
             elif c == 1:
                 tag += 1
                 ops.append("OUT PUB 1 0 %d %d %d" % (tag % 50, tag, rng.choice([1, 3, 4, 11])))
